@@ -49,7 +49,6 @@ from sqlalchemy import (BigInteger, Boolean, Column, Date, DateTime, Float, Fore
                         Numeric, String, Table, Time, Unicode, bindparam, case, create_engine, delete, exc, func, insert, literal,
                         literal_column, or_, select, union_all, update)
 from sqlalchemy.orm import Session, aliased, declarative_base, relationship, with_parent
-from sqlalchemy.orm.attributes import instance_state
 from sqlalchemy.dialects import mssql, mysql, oracle, postgresql, sqlite
 from sqlalchemy.dialects.mssql import pymssql
 from sqlalchemy.dialects.mysql import mysqlconnector
@@ -380,8 +379,11 @@ class Src:
     """builds the bound parameters of one statement from one source; collects what has to be passed to Executable.params()
     (self.params) or to Connection.execute() (self.exec_params)"""
 
-    def __init__(self, kind, tname):
+    def __init__(self, kind, tname, prefix=None):
         self.kind, self.tname = kind, tname
+        # parameter names differ by source unless a shared prefix is asked for: statements of different sources then do not
+        # share a compiled-cache entry (cache sharing is the separate [source-cache] clause)
+        self.prefix = prefix or re.sub(r"\W", "_", kind) + "_"
         self.type, _, _, self.decoy = SRC_TYPES[tname]
         self.params, self.exec_params, self.n = {}, {}, 0
         self.lx = kind.startswith("lx-")
@@ -393,7 +395,7 @@ class Src:
 
     def __call__(self, value, expanding=False):
         self.n += 1
-        name = "p%d" % self.n
+        name = "%s%d" % (self.prefix, self.n)
         kw = dict(type_=self.type, expanding=expanding, literal_execute=self.lx)
         decoy = [self.decoy] if expanding else self.decoy
         k = self.base
@@ -404,7 +406,7 @@ class Src:
         if k == "callable":
             return bindparam(name, callable_=lambda: value, **kw)
         if k == "unique-callable":
-            return bindparam("p", callable_=lambda: value, unique=True, **kw)
+            return bindparam(self.prefix, callable_=lambda: value, unique=True, **kw)
         if k in ("params", "params-override"):
             self.params[name] = value
             return bindparam(name, **kw) if k == "params" else bindparam(name, decoy, **kw)
@@ -444,9 +446,9 @@ SRC_FORMS = {
 DML_FORMS = ("insert-values", "update-set-where", "delete-where", "insert-from-select")
 
 
-def source_statement(form, kind, tname, v):
+def source_statement(form, kind, tname, v, prefix=None):
     """(statement with Executable.params() applied, Src) or (None, Src) when the API refuses the combination"""
-    src = Src(kind, tname)
+    src = Src(kind, tname, prefix)
     _, cname, other, _ = SRC_TYPES[tname]
     stmt = SRC_FORMS[form](src, _TS.c[cname], v, other)
     if src.params:
@@ -545,16 +547,18 @@ def _run_rows(conn, form, how):
         return "%s: %s" % (type(ex).__name__, str(ex)[:200])
 
 
-def source_engine_clause(eng, form, tname, v, only=None):
-    """[source-rows]  returns (failures, executions, nontrivial)"""
+def source_engine_clause(eng, form, tname, v, caches, only=None):
+    """[source-rows]  caches: source -> compiled cache (a statement shape is compiled once per source and re-used for the
+    following values - the cache-hit path - but never shared between sources).  returns (failures, executions, nontrivial)"""
     out = []
     n = nt = 0
     with warnings.catch_warnings(), eng.connect() as conn:
         warnings.simplefilter("ignore")
         ref_stmt, _ = source_statement(form, "value", tname, v)
-        want = _run_rows(conn, form, lambda c: c.execute(ref_stmt))
+        opt = lambda kind: {"compiled_cache": caches.setdefault(kind, {})}  # noqa: E731
+        want = _run_rows(conn, form, lambda c: c.execute(ref_stmt, execution_options=opt("value")))
         other_stmt, _ = source_statement(form, "value", tname, SRC_TYPES[tname][3])
-        distinct = want != _run_rows(conn, form, lambda c: c.execute(other_stmt))  # the value matters for the answer
+        distinct = want != _run_rows(conn, form, lambda c: c.execute(other_stmt, execution_options=opt("value")))  # the value matters
         n += 2
         for kind in SOURCES + EXEC_SOURCES:
             if only and kind != only:
@@ -566,7 +570,7 @@ def source_engine_clause(eng, form, tname, v, only=None):
             sql = None
             ep = [src.exec_params] if src.exec_params else []
             # what bound / post-compile execution of this very statement does
-            got["execute"] = _run_rows(conn, form, lambda c: c.execute(stmt, *ep))
+            got["execute"] = _run_rows(conn, form, lambda c: c.execute(stmt, *ep, execution_options=opt(kind)))
             if not src.lx and not src.exec_params:
                 try:
                     sql = str(stmt.compile(dialect=eng.dialect, compile_kwargs=LB))
@@ -580,6 +584,30 @@ def source_engine_clause(eng, form, tname, v, only=None):
             elif distinct:
                 nt += 1
     return out, n, nt
+
+
+CACHE_SOURCES = ["value", "callable", "exec", "lx-value", "lx-callable", "lx-exec"]
+
+
+def source_cache_clause(eng, form, tname, v, first, second):
+    """[source-cache] two statements that differ only in where the value comes from share a compiled-cache entry; the second
+    one must still send (or render, literal_execute) ITS value.  returns (failure or None, executions)"""
+    decoy = SRC_TYPES[tname][3]
+    with warnings.catch_warnings(), eng.connect() as conn:
+        warnings.simplefilter("ignore")
+        ref_stmt, _ = source_statement(form, "value", tname, v)
+        want = _run_rows(conn, form, lambda c: c.execute(ref_stmt, execution_options={"compiled_cache": None}))
+        cache = {}
+        st1, src1 = source_statement(form, first, tname, decoy, prefix="p")
+        st2, src2 = source_statement(form, second, tname, v, prefix="p")
+        _run_rows(conn, form, lambda c: c.execute(st1, *([src1.exec_params] if src1.exec_params else []), execution_options={"compiled_cache": cache}))
+        size = len(cache)
+        got = _run_rows(conn, form, lambda c: c.execute(st2, *([src2.exec_params] if src2.exec_params else []), execution_options={"compiled_cache": cache}))
+        shared = len(cache) == size
+        if got != want:
+            return _fail("source-cache", "bound / literal_execute value after a compiled-cache hit, by value source", "sqlite+pysqlite",
+                         dict(value=_jsonable(v), form=form, type=tname, first=first, second=second, cache_entry_shared=shared), want, got), 3
+    return None, 3
 
 
 # -- ORM-generated criteria: the parameters are callables that read the instance when the statement is compiled / executed
@@ -669,10 +697,6 @@ def _pk_cols(cls):
 
 
 # criterion generators: name -> (instance is "P" or "C", entity selected, criterion(P, C, obj)); None where the family has no such attribute
-def _lazy_clause(rel, obj):
-    return rel.property._lazy_strategy.lazy_clause(instance_state(obj))
-
-
 ORM_CRITERIA = {
     "m2o-eq": ("P", "C", lambda P, C, o: C.par == o),
     "m2o-ne": ("P", "C", lambda P, C, o: C.par != o),
@@ -683,10 +707,11 @@ ORM_CRITERIA = {
     "with_parent-o2m": ("P", "C", lambda P, C, o: with_parent(o, P.kids)),
     "with_parent-m2o": ("C", "P", lambda P, C, o: with_parent(o, C.par)),
     "write_only-select": ("P", "C", None),
-    "lazy_clause-o2m": ("P", "C", lambda P, C, o: _lazy_clause(P.kids, o)),
-    "lazy_clause-m2o": ("C", "P", lambda P, C, o: _lazy_clause(C.par, o)),
+    # the lazy-load clause itself: bound side = the real lazy load of obj.kids (values supplied at execution by the loader),
+    # literal side = the with_parent() criterion rendered with literal_binds
+    "lazy-load-o2m": ("P", "C", lambda P, C, o: with_parent(o, P.kids)),
 }
-ORM_M2M_SKIP = ("m2o-eq", "m2o-ne", "m2o-eq-aliased", "filter_by", "with_parent-m2o", "lazy_clause-m2o")
+ORM_M2M_SKIP = ("m2o-eq", "m2o-ne", "m2o-eq-aliased", "filter_by", "with_parent-m2o")
 ORM_FORMS = ("select-where", "in-subquery", "union", "cte", "update-where", "delete-where")
 
 
@@ -779,10 +804,20 @@ def orm_clause(eng, P, C, pkeys, family, gen, form, state, idx):
                     finally:
                         sp.rollback()
                 return [list(r) for r in how()]
+            except NotImplementedError:
+                return NotImplemented
             except (exc.SQLAlchemyError, sqlite3.Error) as ex:
                 return "%s: %s" % (type(ex).__name__, str(ex)[:200])
 
-        bound = run_it(lambda: sess.execute(stmt, execution_options={"synchronize_session": False} if dml else {}))
+        if gen == "lazy-load-o2m":
+            if form != "select-where" or state not in ("persistent", "expired"):
+                return None, 0, 0
+            sess.expire(obj, ["kids"])
+            bound = run_it(lambda: [[k.id] for k in obj.kids])
+        else:
+            bound = run_it(lambda: sess.execute(stmt, execution_options={"synchronize_session": False} if dml else {}))
+        if bound is NotImplemented:  # e.g. multiple-table criteria in DELETE on this backend: refused
+            return None, 0, 0
         if state == "expired" and obj in sess:
             sess.expire(obj)
         try:
@@ -861,13 +896,58 @@ def _work(task):
             res["nontrivial"] += string_clause("sqlite+pysqlite", v, "String")[1]
             fails.extend(f)
         eng.dispose()
+    elif kind == "source-text":
+        _, label, vals = task
+        for tname, v in vals:
+            for form in SRC_FORMS:
+                f, n, nt = source_clause(label, form, tname, v)
+                res["evals"] += n
+                res["nontrivial"] += nt
+                fails.extend(f)
+        tname, v = vals[-1]
+        res["samples"].append(dict(dialect=label, form="cte", source="lx-callable", type=tname, value=_jsonable(v),
+                                   sql=source_text(label, "cte", "lx-callable", tname, v)[0]))
+    elif kind == "source-engine":
+        _, vals, strs = task
+        eng = source_engine_setup(strs)
+        caches = {}
+        for tname, v in vals:
+            for form in SRC_FORMS:
+                f, n, nt = source_engine_clause(eng, form, tname, v, caches)
+                res["evals"] += n
+                res["nontrivial"] += nt
+                fails.extend(f)
+                for a in CACHE_SOURCES:
+                    for b in CACHE_SOURCES:
+                        if a != b and a.startswith("lx-") == b.startswith("lx-"):
+                            f1, n = source_cache_clause(eng, form, tname, v, a, b)
+                            res["evals"] += n
+                            if f1:
+                                fails.append(f1)
+        eng.dispose()
+    elif kind == "orm":
+        _, family = task
+        eng, P, C, pkeys = orm_setup(family)
+        for gen, form, state, idx in orm_cases(family):
+            f, n, nt = orm_clause(eng, P, C, pkeys, family, gen, form, state, idx)
+            res["evals"] += n
+            res["nontrivial"] += nt
+            if f:
+                fails.append(f)
+            elif nt and gen == "m2o-eq" and form == "cte" and state == "expired" and idx == 1:
+                with Session(eng) as sess:
+                    obj = _orm_object(sess, P, C, pkeys, "P", idx, "persistent")
+                    res["samples"].append(dict(family=family, criterion=gen, form=form,
+                                               sql=str(orm_statement(P, C, gen, form, obj).compile(eng, compile_kwargs=LB))))
+        eng.dispose()
     if len(fails) > 300:
         res["dropped_failures"] = len(fails) - 300
         del fails[300:]
     return res
 
 
-_PRIORITY = {"string-literal": 0, "value-literal": 0, "sqlite-select-literal": 1, "statement-shape": 2, "sqlite-rows": 3}
+_PRIORITY = {"string-literal": 0, "value-literal": 0, "sqlite-select-literal": 1, "statement-shape": 2, "sqlite-rows": 3,
+             "source-text": 4, "source-rows": 4, "orm-criteria": 4, "source-cache": 5}
 
 
 def run(run, tier, seed, args):
@@ -887,9 +967,21 @@ def run(run, tier, seed, args):
     eng_strs = S.strings(ALPHABET, n_eng)
     for c in S.chunks(eng_strs, nj):
         tasks.append(("engine", c, eng_strs))
-    tasks.sort(key=lambda t: -(len(t[2]) if t[0] in ("strings", "statements") else len(t[1]) * 5 if t[0] == "engine" else 0))
+    src_vals = source_values(quick)
+    for label in VARIANTS:
+        for c in S.chunks(src_vals, 2 if quick else 8):
+            tasks.append(("source-text", label, c))
+    src_strs = sorted({v for t, v in src_vals if t == "String" and v is not None} | {"z", "decoy"})
+    src_eng_vals = [(t, v) for t, v in src_vals if t in ("String", "Integer")]
+    for c in S.chunks(src_eng_vals, nj):
+        tasks.append(("source-engine", c, src_strs))
+    for family in ORM_FAMILIES:
+        tasks.append(("orm", family))
+    cost = {"strings": lambda t: len(t[2]), "statements": lambda t: len(t[2]), "engine": lambda t: len(t[1]) * 5,
+            "source-text": lambda t: len(t[2]) * 300, "source-engine": lambda t: len(t[1]) * 600, "orm": lambda t: 4000}
+    tasks.sort(key=lambda t: -cost.get(t[0], lambda t: 0)(t))
     res = S.pmap(_work, tasks)
-    F = S.Findings(run)
+    F = S.Findings(run, max_replays=12)
     F.extend(sorted((f for r in res for f in r["fails"]),
                     key=lambda f: (_PRIORITY.get(f["clause"], 9), len(json.dumps(f["input"])), json.dumps(f["input"], sort_keys=True))))
     F.finish()
@@ -900,12 +992,16 @@ def run(run, tier, seed, args):
         d["nontrivial"] += r["nontrivial"]
     run.coverage.update(
         evaluations=sum(d["evaluations"] for d in by.values()),
-        distinct_nontrivial=by["strings"]["nontrivial"] + by["values"]["nontrivial"],
+        distinct_nontrivial=(by["strings"]["nontrivial"] + by["values"]["nontrivial"] + by["source-text"]["nontrivial"]
+                             + by["orm"]["nontrivial"]),
         rule="one evaluation = one real rendering (or one real execution) checked against the contract; inputs are exhaustive "
              "products, each (variant, type, value) enumerated once. Non-trivial, measured on the real output: (variant, type, "
              "string) triples whose rendering differs from plain '<value>' quoting, i.e. the processor had to escape a quote, a "
              "backslash or a percent sign; plus the (variant, type, value) boundary values that were rendered (not refused). "
-             "The statement / engine parts re-use the same strings and are not added to distinct_nontrivial.",
+             "The statement / engine parts re-use the same strings and are not added to distinct_nontrivial. [source]: "
+             "(variant, form, type, value, source) tuples with a source other than the plain value and a non-NULL value whose "
+             "literal text was produced and compared (source-engine re-uses them, not added); [orm-criteria]: (family, "
+             "criterion, form, instance state, instance) cases whose bound execution returned rows / changed the table.",
         by_part=by,
         values_refused_by_processor=sum(r["refused"] for r in res),
         variants=list(VARIANTS),
@@ -913,8 +1009,13 @@ def run(run, tier, seed, args):
         samples=[s for r in res for s in r["samples"]][:12],
         exhaustive=True,
         scope="alphabet %r; strings of length 0..%d x %d variants x {String, Unicode} x 2 paths; statement forms %s for strings "
-              "0..%d; SQLite Engine executions for strings 0..%d; boundary value lists (module docstring); sqlite3 %s"
-              % (ALPHABET, n_str, len(VARIANTS), sorted(FORMS), n_stmt, n_eng, sqlite3.sqlite_version),
+              "0..%d; SQLite Engine executions for strings 0..%d; boundary value lists (module docstring); value sources %s "
+              "(+ %s on the Engine) x %d statement forms %s x %d values (strings 0..%d + 6 adversarial, 4 integers, 2 floats, "
+              "bool, datetime, None) x %d variants as text and on a SQLite Engine (String / Integer values); compiled-cache "
+              "sharing between sources %s; ORM criteria %s x forms %s x instance states %s x 3 instances x families %s; sqlite3 %s"
+              % (ALPHABET, n_str, len(VARIANTS), sorted(FORMS), n_stmt, n_eng, SOURCES, EXEC_SOURCES, len(SRC_FORMS),
+                 sorted(SRC_FORMS), len(src_vals), 1 if quick else 2, len(VARIANTS), CACHE_SOURCES, sorted(ORM_CRITERIA),
+                 list(ORM_FORMS), list(ORM_STATES), list(ORM_FAMILIES), sqlite3.sqlite_version),
         sqlalchemy_tree=sqlalchemy.__file__,
     )
     run.assumptions += [
@@ -925,6 +1026,8 @@ def run(run, tier, seed, args):
         "pysqlite: no) is taken from the drivers' documentation; no driver other than sqlite3 is run",
         "whether Oracle's TO_DATE / TO_TIMESTAMP format masks accept the rendered text (time zones, fractional seconds) needs a server: outside",
         "NUL characters, lone surrogates, strings longer than the scope and characters outside the 10-character alphabet are outside",
+        "[source]: executemany, bindparam values inside text() / lambda statements, ORM criteria with custom primaryjoin / "
+        "remote_side / composite secondary, and loader strategies other than the lazy 'select' loader are outside",
         "types not enumerated (Enum, Uuid, JSON, ARRAY, Interval, LargeBinary, TypeDecorator) and collation / charset conversion on the server are outside",
     ]
 
@@ -933,8 +1036,11 @@ def replay(data):
     inp = data["input"]
     clause = data.get("clause", "")
     label = inp["dialect"]
-    v = _unjson(inp["value"])
-    if clause == "statement-shape":
+    v = _unjson(inp["value"]) if "value" in inp else None
+    if clause == "statement-shape" and "source" in inp:
+        fails, _, _ = source_clause(label, inp["form"], inp["type"], v)
+        fails = [f for f in fails if f["clause"] == clause]
+    elif clause == "statement-shape":
         f = statement_clause(label, inp["form"], v)
         fails = [f] if f else []
     elif clause == "sqlite-rows":
@@ -942,6 +1048,21 @@ def replay(data):
         eng, t, ids = engine_setup(strs)
         fails, _ = engine_clause(eng, t, ids, v)
         fails = [f for f in fails if f["input"]["form"] == inp["form"]]
+    elif clause == "source-text":
+        fails, _, _ = source_clause(label, inp["form"], inp["type"], v)
+        fails = [f for f in fails if f["input"]["source"] == inp["source"]]
+    elif clause in ("source-rows", "source-cache"):
+        strs = sorted({"z", "decoy", "a"} | ({v} if isinstance(v, str) else set()))
+        eng = source_engine_setup(strs)
+        if clause == "source-rows":
+            fails, _, _ = source_engine_clause(eng, inp["form"], inp["type"], v, {}, only=inp["source"])
+        else:
+            f, _ = source_cache_clause(eng, inp["form"], inp["type"], v, inp["first"], inp["second"])
+            fails = [f] if f else []
+    elif clause == "orm-criteria":
+        eng, P, C, pkeys = orm_setup(inp["family"])
+        f, _, _ = orm_clause(eng, P, C, pkeys, inp["family"], inp["criterion"], inp["form"], inp["state"], inp["instance"])
+        fails = [f] if f else []
     elif inp.get("family"):
         con = sqlite3.connect(":memory:") if label.startswith("sqlite") else None
         fails, _, _ = value_clause(label, inp["family"], inp["type"], v, con)
